@@ -140,8 +140,12 @@ package keeper
 //@ func (k Keeper) AllocateTokens
 //@ may_panic
 //@ modifies Bank, Other, DistrReceived, DistrAllocated
+// store invariant: the stored parameters passed validation (SetParams below is the only writer of the record)
+//@ requires bParams(Store_bandtss).RewardPercentage <= 100
 //@ ensures err == nil ==> (forall d Str :: DistrAllocated[d] - old(DistrAllocated)[d] == DistrReceived[d] - old(DistrReceived)[d])
 //@ assert after tssRewardInt: tssRewardInt == ext("DecCoins.TruncateDecimal", ext("DecCoins.MulDecTruncate", totalFee, wrap64(bParams(Store_bandtss).RewardPercentage) * 10000000000000000))
+// the transfer out of the fee collector never asks for more than the fee collector holds
+//@ assert after tssRewardInt: forall d Str :: { ext("Coins.AmountOf", tssRewardInt, d) } ext("Coins.AmountOf", tssRewardInt, d) * 1000000000000000000 <= ext("DecCoins.AmountOf", totalFee, d)
 //@ assert after rewardMultiplier: rewardMultiplier == 1000000000000000000 - communityTax && 0 <= rewardMultiplier && rewardMultiplier <= 1000000000000000000
 //@ assert after powerFraction: len(validMembers) >= 1 && powerFraction == (1000000000000000000 * 1000000000000000000) / (len(validMembers) * 1000000000000000000) && powerFraction >= 0 && powerFraction * len(validMembers) <= 1000000000000000000
 //@ assert after reward: reward == ext("DecCoins.MulDecTruncate", ext("DecCoins.MulDecTruncate", tssReward, rewardMultiplier), powerFraction)
@@ -213,3 +217,9 @@ package keeper
 //@ modifies Store_bandtss
 //@ ensures (old(bTransitionHas(Store_bandtss)) && old(bTransitionAt(Store_bandtss)).IncomingGroupID == groupID && old(bTransitionAt(Store_bandtss)).Status == types.TRANSITION_STATUS_CREATING_GROUP)
 //@            ? Store_bandtss == remove(old(Store_bandtss), types.GroupTransitionStoreKey) : Store_bandtss == old(Store_bandtss)
+
+// ---- C02/C14: the only writer of the parameter record stores validated parameters only --------------------------
+//@ func (k Keeper) SetParams
+//@ modifies Store_bandtss
+//@ ensures err == nil ==> Store_bandtss == store(old(Store_bandtss), types.ParamsKey, enc(p)) && p.RewardPercentage <= 100
+//@ ensures err != nil ==> Store_bandtss == old(Store_bandtss)
